@@ -21,7 +21,7 @@ func init() {
 		ID:        "C07",
 		Level:     "model_checking",
 		Technique: "bounded exhaustive enumeration of row-kind words (the comma/separator state machine), skipable assignments, item kinds and header configurations, each rendered by the real code and decoded by an order/duplicate-preserving JSON reader",
-		Rule: "family row-words: every word over {object row, separator, zero-cell row, short row} of length <=7 (thorough <=8), i.e. every path through the comma state machine; " +
+		Rule: "family lifecycle: one table and one long-lived wrapper, every sequence of <=5 in-place modifications (items mutated + Update incl. to empty text, headers replaced incl. duplicates and renames, rows grown, skipable of column 0/1/2 changed), Render and failed RenderTo, each Render judged against the current content; family row-words: every word over {object row, separator, zero-cell row, short row} of length <=7 (thorough <=8), i.e. every path through the comma state machine; " +
 			"family skipable: every assignment of {unset,true,false,non-bool} to column 0 and 2 columns x every pair of cells from {nil, empty string, x, 0, nested empty cell}; " +
 			"family items: 16 item kinds (scalars, slices, maps, structs with/without exported fields, Marshaler, TextMarshaler, nested cell, unencodable chan) x position; " +
 			"family headers: every pair/triple of header texts from a 15-pool incl. duplicate, empty, control characters (ESC, NUL, DEL, VT, BS), U+2028 and a non-printable astral rune, x missing/too-few/enough/wider; non-trivial = word contains a separator or anomalous row, a skipable or non-default setting, a non-string item, or a refused configuration",
@@ -233,6 +233,11 @@ func c07Run(x *X, c *Chooser, t *c07Table, tags []string) {
 		x.FailSite("C07.no_panic", append(tags, "panic"), site, "json Render panicked: %v on %s", val, t.desc)
 		return
 	}
+	c07Judge(x, t, tags, out, err)
+}
+
+// c07Judge applies the oracle to an output obtained for the table described by t.
+func c07Judge(x *X, t *c07Table, tags []string, out string, err error) {
 	want, wantErr, why := c07Expect(t)
 	x.Clause("C07.error_means_no_text")
 	if err != nil && out != "" {
@@ -342,6 +347,22 @@ func runC07(x *X) {
 		c07Run(x, c, t, tags)
 	})
 
+	ldepth := x.Pick(5, 5)
+	lops := lifeOps(false, true)
+	x.Explore("lifecycle", ExploreOpts{ShardDepth: 2, Bound: fmt.Sprintf("one table + one long-lived json wrapper: all sequences of <=%d operations over %d in-place modifications/skipable changes, Render, failed RenderTo", ldepth, len(lops))}, func(c *Chooser) {
+		lifecycle(x, c, "C07", ldepth, lops, false, func(t tabular.Table) lifeRenderer { return tjson.Wrap(t) },
+			func(m *lifeModel, tags []string, out string, err error) {
+				t := &c07Table{hasHeader: m.hasHdr, header: m.header, skip: m.skip, desc: fmt.Sprint(m.ops)}
+				for _, r := range m.rows {
+					row := []c07Cell{}
+					for _, lc := range r {
+						row = append(row, c07Cell{lc.ptr, lc.Text})
+					}
+					t.rows = append(t.rows, row)
+				}
+				c07Judge(x, t, tags, out, err)
+			})
+	})
 	// wide tables: 10-13 columns
 	x.Explore("wide", ExploreOpts{ShardDepth: 2, Bound: "12 headers x rows of 9/12/3/0 cells and separators x skipable set on each column in turn (or on column 0)"}, func(c *Chooser) {
 		t := &c07Table{hasHeader: true, skip: map[int]interface{}{}}
